@@ -198,7 +198,9 @@ class Rig:
         before = len(port.writes)
         cmd = Command.from_attrs("RQ", "01:145038", "313F", "00")
         try:
-            await asyncio.wait_for(self.gwy.async_send_cmd(cmd, max_retries=0, timeout=1.5, wait_for_reply=False), timeout=30)
+            from ramses_tx.const import Priority
+
+            await asyncio.wait_for(self.gwy.async_send_cmd(cmd, max_retries=0, timeout=20, wait_for_reply=False, priority=Priority.HIGHEST), timeout=60)
             err = None
         except Exception as e:  # noqa: BLE001
             err = e
@@ -221,6 +223,28 @@ class Rig:
             await harness.stop_gateway(self.gwy)
             if self.air:
                 self.air.close()
+
+
+def live_pollers(gwy) -> set[str]:
+    """Entities whose discovery poller task is running (part of 'the gateway running exactly as before')."""
+    ents = list(gwy.devices)
+    for tcs in gwy.systems:
+        ents += [tcs, *tcs.zones] + ([tcs.dhw] if tcs.dhw else [])
+    return {str(e.id) for e in ents if (t := getattr(e, "_discovery_poller", None)) is not None and not t.done()}
+
+
+class SlowDict(dict):
+    """A snapshot whose restore takes wall time (a large cache on a slow machine): the clock moves on between
+    packets, so timers - discovery polls among them - fall due while the engine is paused."""
+
+    def __init__(self, data: dict[str, str], loop, step: float) -> None:
+        super().__init__(data)
+        self._loop, self._step = loop, step
+
+    def items(self):  # type: ignore[no-untyped-def,override]
+        for kv in super().items():
+            self._loop._vt += self._step
+            yield kv
 
 
 def corrupt_snapshot(rng, pkts: dict[str, str]) -> dict[str, str]:
@@ -280,10 +304,13 @@ async def snapshot_ops(rig: Rig, rng) -> None:
     # --- restore
     if pkts is None:
         return
-    kind = rng.choice(("own", "own", "corrupt", "cancel", "twice"))
+    kind = rng.choice(("own", "own", "corrupt", "cancel", "twice", "slow"))
+    pollers_before = live_pollers(gwy)
     ctx.count("ops.restore")
     ctx.count(f"ops.restore.{kind}")
     payload = corrupt_snapshot(rng, pkts) if kind == "corrupt" else dict(pkts)
+    if kind == "slow":
+        payload = SlowDict(pkts, rig.loop, rng.choice((0.5, 3.0, 31.0)))
     outcome = "returned"
     try:
         if kind == "cancel":
@@ -306,13 +333,24 @@ async def snapshot_ops(rig: Rig, rng) -> None:
     await vloop.drain(rig.loop, 8)
     where = f"restore[{kind}]({outcome.split(' ')[0]})"
     engine_check(where)
+    dead = pollers_before - live_pollers(gwy)
+    dead = {d for d in dead if d in {str(x.id) for x in gwy.devices} | {str(t.id) for t in gwy.systems} | {str(z.id) for t in gwy.systems for z in t.zones}}
+    ctx.count("pollers.checked", len(pollers_before))
+    if dead:
+        ctx.violate(
+            f"C13|engine|discovery-pollers-died-during|{where}",
+            f"{where} left the gateway polling fewer entities than before (discovery poller tasks ended)",
+            {"dead": sorted(dead)[:6], "before": len(pollers_before), "last_packets": rig.trail[-6:]},
+        )
     await rig.marker(where)
     await rig.probe_send(where)
 
 
-async def run_history(loop: vloop.VirtualLoop, ctx, h: hist.History, stack: str, eavesdrop: bool, trial: int) -> None:
+async def run_history(loop: vloop.VirtualLoop, ctx, h: hist.History, stack: str, eavesdrop: bool, trial: int, discovery: bool = False) -> None:
     rng = ctx.rng
-    rig = Rig(loop, ctx, stack, eavesdrop)
+    rig = Rig(loop, ctx, stack, eavesdrop, cfg={"disable_discovery": not discovery, "enable_eavesdrop": eavesdrop})
+    if discovery:
+        ctx.count("histories.discovery_on")
     await rig.start()
     gwy = rig.gwy
     lines = h.lines
@@ -393,9 +431,11 @@ def run(ctx) -> None:
 
         harness.reset_transport_globals()
 
-        async def go(loop, h=h, stack=stack, eavesdrop=eavesdrop, trial=trial):
+        discovery = stack == "port" and rng.random() < 0.5
+
+        async def go(loop, h=h, stack=stack, eavesdrop=eavesdrop, trial=trial, discovery=discovery):
             with clocks_patched(entity_dt=(stack == "port")):
-                await run_history(loop, ctx, h, stack, eavesdrop, trial)
+                await run_history(loop, ctx, h, stack, eavesdrop, trial, discovery)
 
         try:
             vloop.run(go)
